@@ -174,8 +174,11 @@ def run_l2(ctx):
                     body = text_body(n, rng)
                     exp_body = body.encode("utf-8")
                     # text is sent as UTF-8 whatever parameters the handler's meta carries (they describe, they do not transcode)
+                    # (blanks at either end of a meta are part of it: a handler - a relay, say - that hands them on gets them sent)
                     meta = ("text/gemini", "text/plain; charset=iso-8859-1", "text/gemini", "text/gemini; charset=utf-16", 'text/plain; charset="utf-8"', "text/gemini", "text/plain; charset=x-no-such-charset",
-                            "text/gemini; lang=de", "text/plain; charset=ascii")[(idx // 2) % 9]
+                            "text/gemini; lang=de", "text/plain; charset=ascii", "text/gemini ", " text/plain", "text/plain; charset=utf-8\t")[(idx // 2) % 12]
+                    if meta != meta.strip():
+                        ctx.count("monitor", "l2_metas_with_blanks_at_the_ends")
                     if "charset" in meta:
                         ctx.count("monitor", "l2_text_bodies_with_charset_parameter")
                 if idx % 7 == 3:
